@@ -13,7 +13,7 @@ class TLCResult:
     def ok(self):
         return self.rc == 0 and not self.errors and not self.timeout
 
-def run_tlc(module, cfg=None, env=None, workers='auto', timeout=600, extra=None, simulate=None, heap=None, keep=None, deque=False):
+def run_tlc(module, cfg=None, env=None, workers='auto', timeout=600, extra=None, simulate=None, heap=None, keep=None, deque=False, files=None):
     """module: name without .tla inside spec dir. Returns TLCResult."""
     res = TLCResult()
     scratch = tempfile.mkdtemp(prefix='vt-tlc-')
@@ -21,6 +21,9 @@ def run_tlc(module, cfg=None, env=None, workers='auto', timeout=600, extra=None,
         for f in os.listdir(SPEC_DIR):
             if f.endswith('.tla') or f.endswith('.cfg') or f.endswith('.json'):
                 shutil.copy(os.path.join(SPEC_DIR, f), scratch)
+        for name, content in (files or {}).items():
+            with open(os.path.join(scratch, name), 'w') as f:
+                f.write(content)
         cmd = ['tlc', '-workers', str(workers), '-metadir', os.path.join(scratch, 'md'), '-noGenerateSpecTE',
                '-config', cfg or (module + '.cfg')]
         if simulate:
